@@ -303,11 +303,17 @@ class Harness:
 def plan(tier, seed):
     """[(profile, first, count, gomaxprocs)] - chunks for the child processes."""
     per_g = 200 if tier == "quick" else 3334
-    mix = [("mixed", 0.45), ("pubsub", 0.2), ("rpc", 0.17), ("progress", 0.13), ("smallq", 0.05)]
+    mix = [("mixed", 0.40), ("pubsub", 0.17), ("rpc", 0.16), ("progress", 0.10), ("history", 0.12),
+           ("smallq", 0.05)]
     chunk = 20 if tier == "quick" else 60
     tasks = []
     for g in GOMAXPROCS:
         first = 0
+        # bursts in which a caller stops reading for more than a second: mostly
+        # sleeping, so one burst per child, started first
+        for k in range(2 if tier == "quick" else 12):
+            tasks.append(("stall", first, 1, g))
+            first += 1
         for prof, frac in mix:
             n = max(1, int(round(per_g * frac)))
             while n > 0:
@@ -322,9 +328,9 @@ def targeted_profiles(failed):
     profs = set()
     for f in failed:
         if any(k in f for k in ("EVENT", "SUBSCRIBED", "broker", "shape:")):
-            profs.update(("pubsub", "mixed"))
+            profs.update(("pubsub", "mixed", "history"))
         if any(k in f for k in ("RESULT", "ERROR_CALL", "yield", "shape:")):
-            profs.update(("progress", "smallq", "rpc"))
+            profs.update(("progress", "smallq", "rpc", "stall"))
         if any(k in f for k in ("INVOCATION", "REGISTERED", "dealer", "shape:")):
             profs.update(("rpc", "mixed"))
     return sorted(profs) or ["mixed", "pubsub", "rpc", "progress"]
@@ -338,7 +344,7 @@ def shrink(h, rec, claims, budget_s, timer):
     g = rec.get("gomaxprocs", 16)
     keys = ["pub_msgs", "calls_per", "chunks", "churn_rounds", "reg_churn", "publishers", "callers", "callees",
             "churners", "subscribers", "prefix_subs", "bystanders", "meta_calls", "join_leave", "meta_subs",
-            "topics", "procs"]
+            "sole_churners", "prefix_churners", "wild_churners", "dup_reg", "topics", "procs"]
     best = None
     t0 = timer.s()
     steps = 0
@@ -611,7 +617,7 @@ def main(tier, replay):
         for k in range(rounds):
             for prof in profs:
                 for g_ in (16, 2, 1):
-                    extra.append((prof, 100000 + k * 40, 20, g_))
+                    extra.append((prof, 100000 + k * 40, 2 if prof == "stall" else 20, g_))
 
         t_start = timer.s()
         t_budget = 120 if tier == "quick" else 600
